@@ -344,6 +344,13 @@ impl<I: Iterator> Iterator for Vague<I> {
     fn next(&mut self) -> Option<I::Item> { self.0.next() }
     fn size_hint(&self) -> (usize, Option<usize>) { (self.0.size_hint().0.saturating_sub(self.1), None) }
 }
+/// an iterator whose size_hint is WRONG (a stale, over-reporting lower bound): allowed to cost performance, never memory safety
+struct Lying<I>(I, usize);
+impl<I: Iterator> Iterator for Lying<I> {
+    type Item = I::Item;
+    fn next(&mut self) -> Option<I::Item> { self.0.next() }
+    fn size_hint(&self) -> (usize, Option<usize>) { let (lo, hi) = self.0.size_hint(); (lo + self.1, hi.map(|h| h + self.1)) }
+}
 static DONE_SEQ: AtomicUsize = AtomicUsize::new(0);
 
 // ------------------------------------------------------------------------------------------------ per-history guard
@@ -815,6 +822,40 @@ fn run_fairness(prop: &'static str) {
     if prop != "C13" {
         return;
     }
+    // pushes interleaved with polls: every call is preceded by a push of a ready future (it lands in the newest group); a woken
+    // victim in the oldest group must still be reached within a linear number of calls
+    for kind in [1usize, 3] {
+        for &held in &[40usize, 100] {
+            let mut coll = if kind == 1 { Coll::Fu(FuturesUnordered::new()) } else { Coll::Fo(FuturesOrdered::new()) };
+            let scenario = format!("{}: {held} pending futures in several groups, then one ready future is pushed before every poll; the first future is woken", coll.name());
+            let mut children: Vec<St> = vec![];
+            for id in 0..held {
+                let st: St = Rc::new(ChildSt::default());
+                children.push(st.clone());
+                let _ = coll.push_back(Fut::new(id, st));
+            }
+            let tw = Arc::new(CountWaker(AtomicUsize::new(0)));
+            let waker = Waker::from(tw.clone());
+            let mut cx = Context::from_waker(&waker);
+            for _ in 0..(held / 30 + 4) { let _ = coll.poll(&mut cx); }
+            let before = children[0].polls.get();
+            wake_child(&children[0]);
+            let bound = 3 * held + 10;
+            let mut calls = 0;
+            let mut id = held;
+            while children[0].polls.get() == before && calls < bound {
+                let st: St = Rc::new(ChildSt::default());
+                st.ready.set(true);
+                if kind == 1 { let _ = coll.push_back(Fut::new(id, st)); } else { let _ = coll.push_front(Fut::new(id, st)); }
+                id += 1;
+                let _ = coll.poll(&mut cx);
+                calls += 1;
+            }
+            if children[0].polls.get() == before {
+                report(&Fail { prop, scenario, history: vec![format!("push x{held}; poll until all were polled"), "wake(0)".into(), format!("(push ready; poll) x{calls}")], what: format!("the woken future 0 was not polled again within {bound} polls while a ready future was pushed before each of them") });
+            }
+        }
+    }
     for kind in 0..4usize {
         for &k in &[1usize, 2, 31, 32, 33, 59, 60, 61, 62, 63, 64, 95, 96, 97, 121, 122, 123, 124, 125, 185, 186] {
             for vpos in 0..3usize {
@@ -1017,7 +1058,7 @@ fn run_quiescence_wrappers(prop: &'static str) {
     }
     // adapters: n sleeping jobs in flight (or none), upstream pending for ever
     for which in 0..5usize {
-        for n in 1..=3usize {
+        for n in 0..=3usize {
             for jobs in 0..=n {
                 let mut script: Vec<Up> = vec![Up::Item; jobs];
                 for _ in 0..200 { script.push(Up::Pending); }
@@ -1042,6 +1083,44 @@ fn run_quiescence_wrappers(prop: &'static str) {
                         history: trail.iter().rev().take(6).rev().cloned().collect(), what: format!("after {} polls the adapter still wakes its task on every poll although everything it holds sleeps", jobs + 8) });
                 }
             }
+        }
+    }
+}
+/// C08 beyond the small scope: more children than any eager reservation or small group (capacities above 1024), so that a
+/// storage that grows by re-allocation shows.
+fn run_address_big(prop: &'static str) {
+    if prop != "C08" {
+        return;
+    }
+    let tw = Arc::new(CountWaker(AtomicUsize::new(0)));
+    let waker = Waker::from(tw.clone());
+    let mut cx = Context::from_waker(&waker);
+    for kind in 0..4usize {
+        let total = 3200usize;
+        let mut coll = match kind {
+            0 => Coll::Fub(FuturesUnorderedBounded::new(total)),
+            1 => Coll::Fu(FuturesUnordered::new()),
+            2 => Coll::Fob(FuturesOrderedBounded::new(total)),
+            _ => Coll::Fo(FuturesOrdered::new()),
+        };
+        let scenario = format!("{}: {total} pending futures pushed one by one, the collection polled after every 100 pushes", coll.name());
+        let mut children: Vec<St> = vec![];
+        for id in 0..total {
+            let st: St = Rc::new(ChildSt::default());
+            children.push(st.clone());
+            if coll.push_back(Fut::new(id, st)).is_err() { return; }
+            if id % 100 == 99 {
+                for _ in 0..4 { let _ = coll.poll(&mut cx); }
+                if let Some((i, _)) = children.iter().enumerate().find(|(_, c)| c.moved.get()) {
+                    report(&Fail { prop, scenario, history: vec![format!("push x{}; poll", id + 1)], what: format!("future {i} was polled at two different addresses (after {} pushes)", id + 1) });
+                }
+            }
+        }
+        for c in &children { wake_child(c); }
+        for _ in 0..(total / 50 + 4) { let _ = coll.poll(&mut cx); }
+        drop(coll);
+        if let Some((i, _)) = children.iter().enumerate().find(|(_, c)| c.moved.get()) {
+            report(&Fail { prop, scenario, history: vec![format!("push x{total}; wake all; poll; drop")], what: format!("future {i} was polled at one address and polled again or dropped at another") });
         }
     }
 }
@@ -1185,8 +1264,8 @@ fn run_adapters(prop: &'static str, seed: u64, iters: usize) {
                     if in_flight > n {
                         fail(&["C09"], &hist, format!("{in_flight} unfinished futures held, limit {n}"));
                     }
-                    if ordered && pulled_not_yielded > n {
-                        fail(&["C16"], &hist, format!("{pulled_not_yielded} items pulled but not yielded, limit {n}"));
+                    if ordered && cs.len() - yielded.len() > n {
+                        fail(&["C16"], &hist, format!("{} upstream items (futures and upstream errors) pulled but not yet yielded, limit {n}", cs.len() - yielded.len()));
                     }
                     if ust.polled_after_end.get() {
                         fail(&["C10"], &hist, "upstream polled again after it returned None".into());
@@ -1315,7 +1394,50 @@ impl<'a> Future for PTFut<'a> {
         match Pin::new(&mut self.0).poll(cx) { Poll::Ready(o) => if err { Poll::Ready(Err(id)) } else { Poll::Ready(Ok(o)) }, Poll::Pending => Poll::Pending }
     }
 }
+fn run_join_big_and_lying(prop: &'static str) {
+    let tw = Arc::new(CountWaker(AtomicUsize::new(0)));
+    let waker = Waker::from(tw.clone());
+    let mut cx = Context::from_waker(&waker);
+    // many inputs that are all ready at the first poll (more than any per-call budget), and inputs that come from an iterator
+    // with an over-reporting size hint
+    for try_variant in [false, true] {
+        for &(n, lie) in &[(60usize, 0usize), (61, 0), (62, 0), (63, 0), (130, 0), (3, 2), (1, 1), (5, 3)] {
+            let sts: Vec<St> = (0..n).map(|_| { let s: St = Rc::new(ChildSt::default()); s.ready.set(true); s }).collect();
+            let scenario = format!("{}: {n} inputs, all ready at the first poll{}", if try_variant { "try_join_all" } else { "join_all" }, if lie > 0 { format!("; they come from an iterator whose size_hint over-reports by {lie}") } else { String::new() });
+            let mut polls = 0;
+            let mut result: Option<Vec<Out>> = None;
+            if try_variant {
+                let mut j = Box::pin(try_join_all(Lying(sts.iter().enumerate().map(|(i, s)| TFut(Fut::new(i, s.clone()))).collect::<Vec<_>>().into_iter(), lie)));
+                while polls < 8 && result.is_none() { polls += 1; if let Poll::Ready(r) = j.as_mut().poll(&mut cx) { match r { Ok(v) => result = Some(v), Err(_) => break } } }
+            } else {
+                let mut j = Box::pin(join_all(Lying(sts.iter().enumerate().map(|(i, s)| Fut::new(i, s.clone())).collect::<Vec<_>>().into_iter(), lie)));
+                while polls < 8 && result.is_none() { polls += 1; if let Poll::Ready(v) = j.as_mut().poll(&mut cx) { result = Some(v); } }
+            }
+            let hist = vec![format!("poll x{polls}")];
+            match result {
+                None => report(&Fail { prop, scenario, history: hist, what: "did not resolve within 8 polls although every input is ready".into() }),
+                Some(v) => {
+                    // before a single element is looked at: no output may have been dropped while the caller holds the Vec, and the
+                    // Vec must have one element per input
+                    let dropped: Vec<usize> = sts.iter().enumerate().filter(|(_, s)| s.out_dropped.get() != 0).map(|(i, _)| i).collect();
+                    let len = v.len();
+                    if !dropped.is_empty() || len != n {
+                        std::mem::forget(v);
+                        report(&Fail { prop, scenario, history: hist, what: format!("resolved to a Vec of {len} elements for {n} inputs; the outputs of inputs {:?} were dropped before the Vec was handed out (their places hold values nobody produced)", &dropped[..dropped.len().min(6)]) });
+                    }
+                    let ids: Vec<usize> = v.iter().map(|o| o.id).collect();
+                    if ids != (0..n).collect::<Vec<_>>() {
+                        report(&Fail { prop, scenario, history: hist, what: format!("outputs are not those of inputs 0..{n} in order: {:?}", &ids[..ids.len().min(10)]) });
+                    }
+                }
+            }
+        }
+    }
+}
 fn run_join_special(prop: &'static str) {
+    if prop == "C07" || prop == "C06" || prop == "C04" {
+        run_join_big_and_lying(prop);
+    }
     if prop == "C07" {
         // a child panics when polled; the caller catches the unwind and keeps using the combinator: it must never resolve,
         // because the panicked input produced nothing
@@ -2037,6 +2159,70 @@ fn run_alloc_unbounded(prop: &'static str) {
             report(&Fail { prop, scenario, history: vec![format!("allocations in the first 30 cycles: {:?}", &per[..30])], what: format!("{late} allocations in cycles 21..200 with at most {} futures held", parked + 2) });
         }
     }
+    // S4: FuturesOrdered / FuturesOrderedBounded: identical bursts that complete last-to-first (outputs get parked) and are drained until None
+    for bounded in [false, true] {
+        let mut per = vec![];
+        let mut fo: FuturesOrdered<Fut> = FuturesOrdered::new();
+        let mut fob: FuturesOrderedBounded<Fut> = FuturesOrderedBounded::new(32);
+        for burst in 0..24usize {
+            let sts: Vec<St> = (0..32).map(|_| Rc::new(ChildSt::default())).collect();
+            let mut a = 0usize;
+            for (i, s) in sts.iter().enumerate() {
+                let f = Fut::new(burst * 32 + i, s.clone());
+                if bounded { measured!(a, { let _ = fob.try_push_back(f); }); } else { measured!(a, fo.push_back(f)); }
+            }
+            let r = if bounded { measured!(a, Pin::new(&mut fob).poll_next(&mut cx)) } else { measured!(a, Pin::new(&mut fo).poll_next(&mut cx)) };
+            drop(r);
+            for s in sts.iter().rev() {
+                s.ready.set(true);
+                wake_child(s);
+                let r = if bounded { measured!(a, Pin::new(&mut fob).poll_next(&mut cx)) } else { measured!(a, Pin::new(&mut fo).poll_next(&mut cx)) };
+                drop(r);
+            }
+            let mut guard = 0;
+            loop {
+                guard += 1;
+                let r = if bounded { measured!(a, Pin::new(&mut fob).poll_next(&mut cx)) } else { measured!(a, Pin::new(&mut fo).poll_next(&mut cx)) };
+                if matches!(r, Poll::Ready(None)) || guard > 200 { break; }
+            }
+            per.push(a);
+        }
+        let late: usize = per[6..].iter().sum();
+        if late > 0 {
+            report(&Fail { prop, scenario: format!("{}: 24 identical bursts of 32 futures that complete last-to-first (31 outputs are parked) and are drained until None", if bounded { "FuturesOrderedBounded::new(32)" } else { "FuturesOrdered" }), history: vec![format!("allocations per burst: {:?}", per)], what: format!("{late} allocations in bursts 7..24 at a constant peak of 32 held futures") });
+        }
+    }
+    // S5: MergeUnbounded: three groups, the oldest group ends, then one source is pushed and one ends, again and again, at a constant population
+    {
+        let mut rng = Rng(13);
+        let mut m: MergeUnbounded<Src> = MergeUnbounded::new();
+        let mut live: VecDeque<Rc<SrcSt>> = VecDeque::new();
+        let mut id = 0usize;
+        let mut mk = |rng: &mut Rng, id: &mut usize| { let (s, st) = mk_src(*id, rng); *id += 1; st.script.borrow_mut().clear(); for _ in 0..100000 { st.script.borrow_mut().push_back(Up::Pending); } (s, st) };
+        let mut a0 = 0usize;
+        for _ in 0..97 { let (s, st) = mk(&mut rng, &mut id); live.push_back(st); measured!(a0, m.push(s)); }
+        for _ in 0..6 { let r = measured!(a0, Pin::new(&mut m).poll_next(&mut cx)); drop(r); }
+        for _ in 0..32 { let st = live.pop_front().unwrap(); st.end_now.set(true); let w = st.waker.borrow().clone(); if let Some(w) = w { w.wake_by_ref(); } }
+        for _ in 0..6 { let r = measured!(a0, Pin::new(&mut m).poll_next(&mut cx)); drop(r); }
+        let mut a = 0usize;
+        let mut per = vec![];
+        for _ in 0..100 {
+            let (s, st) = mk(&mut rng, &mut id);
+            live.push_back(st);
+            let mut x = 0usize;
+            measured!(x, m.push(s));
+            let r = measured!(x, Pin::new(&mut m).poll_next(&mut cx)); drop(r);
+            let st = live.pop_front().unwrap(); st.end_now.set(true); let w = st.waker.borrow().clone(); if let Some(w) = w { w.wake_by_ref(); }
+            for _ in 0..2 { let r = measured!(x, Pin::new(&mut m).poll_next(&mut cx)); drop(r); }
+            a += x;
+            per.push(x);
+        }
+        let late: usize = per[20..].iter().sum();
+        let _ = a;
+        if late > 0 {
+            report(&Fail { prop, scenario: "MergeUnbounded: 97 pending sources (three groups), the 32 oldest end, then 100 times: push one source, the oldest one ends - at a constant population of 65..66".into(), history: vec![format!("allocations per replacement (first 40): {:?}", &per[..40])], what: format!("{late} allocations in replacements 21..100 at a constant population") });
+        }
+    }
     // S3b: MergeUnbounded with three groups (32 + 64 + 128): the second and the third group run dry within ONE poll call (their last
     // sources end together) while the first group is still held - the largest group must be kept all the same
     {
@@ -2266,6 +2452,7 @@ fn main() {
             run_adapters(prop, seed, iters / 2);
         }
         "C08" => {
+            run_address_big(prop);
             run_collections(prop, seed, iters);
             run_join(prop, seed, iters / 2);
             run_adapters(prop, seed, iters / 2);
@@ -2293,6 +2480,7 @@ fn main() {
             run_join(prop, seed, iters / 4);
         }
         "C04" => {
+            run_join_special(prop);
             run_collections(prop, seed, iters);
             run_adapters(prop, seed, iters / 2);
             run_join(prop, seed, iters / 2);
